@@ -19,7 +19,9 @@ PADS = ['a', 'é', '€', '😀', '"', '\\', '\x01', '\n']
 TAILS = ['', 'x', 'é', '😀', '"', '\\', '\x7f', 'a"', '😀é', ' ']
 DATAGRAMS = [b'{"SECoP": "discover"}', b'{"SECoP":"discover","x":1}', b'{"SECoP": "node"}', b'{"SECoP": ["discover"]}', b'{}', b'5', b'null', b'[]',
              b'"SECoP"', b'true', b'{"SECoP": "discover"', b'', b'\xff\xfe', b'{"SECoP": "disc\xe9ver"}', b'x' * 1024, b'[1, 2', b'{"secop": "discover"}',
-             b' {"SECoP": "discover"} ', b'{"SECoP": "discover"}\n', b'1e999', b'NaN']
+             b' {"SECoP": "discover"} ', b'{"SECoP": "discover"}\n', b'1e999', b'NaN',
+             # longer than the receive buffer of the unchanged code (the fake socket truncates like UDP does)
+             b'[' * 1500, b'{"a":' * 400]
 
 
 class FakeSocketModule:
